@@ -71,6 +71,12 @@ def State.send (s : State) (frm to : Addr) (amt : Int) : TxM State :=
   let s1 := s.setBal frm (s.bal frm - amt)
   pure (s1.setBal to (s1.bal to + amt))
 
+/-- a transfer whose amount is written as the literal `sdk.Coins{coin}`: a zero coin makes the
+    set invalid and the bank refuses it (sites that build the set with `NewCoins().Add` or guard
+    with `IsZero` use `send`) -/
+def State.sendLit (s : State) (frm to : Addr) (amt : Int) : TxM State :=
+  if amt = 0 then throw "invalid coins" else s.send frm to amt
+
 def State.mint (s : State) (to : Addr) (amt : Int) : State :=
   { (s.setBal to (s.bal to + amt)) with supply := s.supply + amt }
 
